@@ -19,6 +19,30 @@ import (
 	"verifharness/world"
 )
 
+// commands also run under another, unprivileged uid in the atomic-event explorations
+var otherUIDCLI = []string{"bug-list", "bug-new", "user-new"}
+
+var otherUIDNote = "available"
+
+// probeOtherUID: can this run start the CLI under another uid (needs root)?
+func probeOtherUID(gitbug string) int {
+	const nobody = 65534
+	if os.Geteuid() != 0 {
+		otherUIDNote = "skipped: the check does not run as root, it cannot start a process under another uid"
+		return 0
+	}
+	cmd := exec.Command(gitbug, "version")
+	cmd.Env = []string{"PATH=" + os.Getenv("PATH"), "HOME=/nonexistent", "DBUS_SESSION_BUS_ADDRESS=unix:path=/nonexistent"}
+	cmd.Dir = "/"
+	cmd.SysProcAttr = &syscall.SysProcAttr{Credential: &syscall.Credential{Uid: nobody, Gid: nobody, Groups: []uint32{}}}
+	if out, err := cmd.CombinedOutput(); err != nil {
+		otherUIDNote = fmt.Sprintf("skipped: cannot run the CLI as uid %d: %v %s", nobody, err, strings.TrimSpace(string(out)))
+		return 0
+	}
+	otherUIDNote = fmt.Sprintf("uid/gid %d, no supplementary groups (holders run as uid %d)", nobody, os.Geteuid())
+	return nobody
+}
+
 var allCLI = []string{"bug-new", "bug-show-missing", "bug-rm-missing", "pull-missing", "user-new", "bug-list", "wipe", "webui-bad-port", "termui-no-tty"}
 
 type planned struct {
@@ -35,13 +59,13 @@ func plan(tier string) []planned {
 	var ps []planned
 	if tier == "thorough" {
 		ps = []planned{
-			{Config{Name: "3 holders + CLI, atomic events", Holders: 3, CLI: allCLI, Depth: 10}, 18 * time.Minute},
+			{Config{Name: "3 holders + CLI, atomic events", Holders: 3, CLI: allCLI, UCLI: otherUIDCLI, Depth: 10}, 18 * time.Minute},
 			{Config{Name: "inside of two concurrent opens, no lock file", Holders: 2, Step: true}, 4 * time.Minute},
 			{Config{Name: "inside of two concurrent opens, lock left by a dead holder", Holders: 3, Step: true, Prefix: stale}, 4 * time.Minute},
 		}
 	} else {
 		ps = []planned{
-			{Config{Name: "2 holders + CLI, atomic events", Holders: 2, CLI: allCLI, Depth: 8}, 4 * time.Minute},
+			{Config{Name: "2 holders + CLI, atomic events", Holders: 2, CLI: allCLI, UCLI: otherUIDCLI, Depth: 8}, 4 * time.Minute},
 			{Config{Name: "inside of two concurrent opens, no lock file", Holders: 2, Step: true}, 2 * time.Minute},
 			{Config{Name: "inside of two concurrent opens, lock left by a dead holder", Holders: 3, Step: true, Prefix: stale}, 2 * time.Minute},
 		}
@@ -64,7 +88,7 @@ func plan(tier string) []planned {
 		{"lock left by a killed holder", []string{"open:1", "kill:1"}},
 		{"lock left by a holder that exited without closing, identity and a bug", []string{"cli:user-new", "cli:bug-new", "open:1", "exit:1"}},
 	} {
-		ps = append(ps, planned{Config{Name: "command sweep: " + sit.name, Holders: 1, Prefix: sit.prefix, CLI: every, Depth: 1}, 5 * time.Minute})
+		ps = append(ps, planned{Config{Name: "command sweep: " + sit.name, Holders: 1, Prefix: sit.prefix, CLI: every, UCLI: every, Depth: 1}, 5 * time.Minute})
 	}
 	return ps
 }
@@ -170,7 +194,7 @@ func setup() *Env {
 		fail("template repository: %v", err)
 	}
 	_ = repo.Close()
-	return &Env{Self: self, GitBug: gitbug, Template: tmpl, Scratch: scratchDir}
+	return &Env{Self: self, GitBug: gitbug, Template: tmpl, Scratch: scratchDir, OtherUID: probeOtherUID(gitbug)}
 }
 
 // Main is the C19 check.
@@ -223,7 +247,7 @@ func Main(args []string) {
 			verdicts[f.Oracle] += f.Count
 		}
 		runs = append(runs, map[string]any{
-			"name": cfg.Name, "holders": cfg.Holders, "inside_open": cfg.Step, "prefix": cfg.Prefix, "cli_catalogue": cfg.CLI,
+			"name": cfg.Name, "holders": cfg.Holders, "inside_open": cfg.Step, "prefix": cfg.Prefix, "cli_catalogue": cfg.CLI, "cli_catalogue_other_uid": cfg.UCLI,
 			"depth_bound": cfg.Depth, "depth_completed": ex.DepthDone, "states": ex.States, "transitions": ex.Transitions,
 			"process_runs": ex.Executions, "new_states_per_depth": ex.PerDepth, "terminal_states": ex.Terminal,
 			"event_orders_represented": ex.Orders, "exhaustive": ex.Exhaustive, "fixpoint": ex.Fixpoint, "violation_shapes": found,
@@ -254,12 +278,13 @@ func Main(args []string) {
 	cov["traces_validated_against_impl"] = trans
 	cov["process_runs"] = execs
 	cov["exhaustive"] = exhaustive && harnessErr == ""
-	cov["rule"] = "breadth-first over all orders of the enabled events {open, close, kill -9, exit without close} of every holder process and every command of the catalogue (inside open: {begin, release next lock-file operation, kill -9} of two processes, then a probing open by a fresh process), each order executed from a fresh copy of the template repository by real processes; states merged by the abstract key; every transition is judged by the reference lock model"
+	cov["rule"] = "breadth-first over all orders of the enabled events {open, close, kill -9, exit without close} of every holder process and every command of the catalogue, some of them also run under another unprivileged uid that may not signal the holders (inside open: {begin, release next lock-file operation, kill -9} of two processes, then a probing open by a fresh process), each order executed from a fresh copy of the template repository by real processes; states merged by the abstract key; every transition is judged by the reference lock model"
 	cov["runs"] = runs
 	cov["samples"] = samples
 	cov["transition_outcomes"] = outcomes
 	cov["distinct_outcomes"] = len(outcomes)
 	cov["violations_by_oracle"] = verdicts
+	cov["other_uid_events"] = otherUIDNote
 	cov["cli_commands_not_in_catalogue"] = uncoveredCommands(env)
 	ev := evidence.Evidence{PropertyID: "C19", Tier: tier, Seed: evidence.Seed(), Level: "model_checking", Coverage: cov,
 		Assumptions: assumptions, WallS: time.Since(start).Seconds(), Violations: rep.Viol, Known: rep.KnownSeen()}
